@@ -33,7 +33,10 @@ EXTENDS Integers, Sequences, FiniteSets, TLC
 Img(t, f, pw, ph) == [t |-> t, f |-> f, pw |-> pw, ph |-> ph]
 Images == {Img("P1", "png", 3, 2),  Img("P2", "png", 2, 2),  Img("P3", "png", 7, 3), Img("P4", "png", 100, 50),
            Img("J1", "jpeg", 4, 3), Img("J2", "jpeg", 1, 5), Img("J3", "jpeg", 3, 3),
-           Img("G1", "gif", 5, 5),  Img("G2", "gif", 2, 7),  Img("G3", "gif", 9, 3)}
+           Img("G1", "gif", 5, 5),  Img("G2", "gif", 2, 7),  Img("G3", "gif", 9, 3),
+           \* twins: same format, same pixel size and same encoded LENGTH as P1 / J2 / G1, different bytes
+           \* (whatever cheap fingerprint an implementation may keep of an image, only the bytes identify it)
+           Img("P1b", "png", 3, 2), Img("J2b", "jpeg", 1, 5), Img("G1b", "gif", 5, 5)}
 ImgOf(t) == CHOOSE i \in Images : i.t = t
 TokNames == {i.t : i \in Images}
 
